@@ -957,6 +957,18 @@ impl<T: Serialize + for<'de> Deserialize<'de> + Clone + PartialEq + Send + Sync 
 
             let entry_size = u32::from_le_bytes(size_bytes) as usize;
 
+            // A length prefix larger than the rest of the file is a torn or damaged record
+            if entry_size as u64 > remaining_len(&mut file).map_err(P2PError::Io)? {
+                stats.corruption_events.push(CorruptionEvent {
+                    file_path: path.to_path_buf(),
+                    corruption_type: CorruptionType::IncompleteWrite,
+                    offset: file.stream_position().unwrap_or(0),
+                    recovery_action: RecoveryAction::Skipped,
+                });
+                stats.entries_failed += 1;
+                break;
+            }
+
             // Read entry data
             buffer.resize(entry_size, 0);
             match file.read_exact(&mut buffer) {
@@ -1193,6 +1205,14 @@ impl<T: Serialize + for<'de> Deserialize<'de> + Clone + PartialEq + Send + Sync 
 
         let header_size = u32::from_le_bytes(size_bytes) as usize;
 
+        if header_size as u64 > remaining_len(&mut file).map_err(P2PError::Io)? {
+            return Err(P2PError::Storage(StorageError::Database(
+                "Snapshot header length exceeds file size"
+                    .to_string()
+                    .into(),
+            )));
+        }
+
         // Read header
         let mut header_data = vec![0u8; header_size];
         file.read_exact(&mut header_data).map_err(|e| {
@@ -1275,6 +1295,13 @@ impl<T: Serialize + for<'de> Deserialize<'de> + Clone + PartialEq + Send + Sync 
             }
 
             let entry_size = u32::from_le_bytes(size_bytes) as usize;
+
+            // A length prefix larger than the rest of the file is a torn or damaged record
+            if entry_size as u64 > remaining_len(&mut file).map_err(P2PError::Io)? {
+                return Err(P2PError::Storage(StorageError::Database(
+                    "WAL entry length exceeds file size".to_string().into(),
+                )));
+            }
 
             // Read entry data
             buffer.resize(entry_size, 0);
@@ -1471,6 +1498,13 @@ pub struct IntegrityReport {
     pub total_entries: usize,
     /// Total state size in bytes
     pub total_size: usize,
+}
+
+/// Bytes between the current position of `file` and its end
+fn remaining_len(file: &mut File) -> std::io::Result<u64> {
+    let len = file.metadata()?.len();
+    let pos = file.stream_position()?;
+    Ok(len.saturating_sub(pos))
 }
 
 /// Get current Unix timestamp
